@@ -108,26 +108,27 @@ def rule_prefix_walk(ctx, chk, f, S, B):
     from ..cfgutil import expr_key
     import re
     # walkers: PathSegment locals initialised from the two path heads
-    walkers = {}
+    cands = {'s': set(), 'b': set()}
     for b in f.blocks:
         for i in b.ins:
             if i.op == 'assign' and i.dst is not None and i.dst.k == 'ref' and 'PathSegment' in (i.dst.ty or ''):
                 k = expr_key(i.src)
                 if k == '%s->pathHead' % S:
-                    walkers['s'] = i.dst.v
+                    cands['s'].add(i.dst.v)
                 elif k == '%s->pathHead' % B:
-                    walkers['b'] = i.dst.v
-    if len(walkers) != 2:
+                    cands['b'].add(i.dst.v)
+    if not cands['s'] or not cands['b']:
         raise AnalysisBroken('%s: the two path walkers were not recognised' % f.name)
-    sw, bw = walkers['s'], walkers['b']
     body = None
+    sw = bw = None
     for b in f.blocks:
         adv = set()
         for i in b.ins:
             if i.op == 'assign' and i.dst is not None and i.dst.k == 'ref' and expr_key(i.src) == '%s->next' % i.dst.v:
                 adv.add(i.dst.v)
-        if {sw, bw} <= adv:
+        if (adv & cands['s']) and (adv & cands['b']):
             body = b
+            sw, bw = sorted(adv & cands['s'])[0], sorted(adv & cands['b'])[0]
     if body is None:
         raise AnalysisBroken('%s: no block advances both path walkers' % f.name)
     # loop head: the block reached from the body's back edge; walk back from the body over condition blocks (no instructions
